@@ -208,6 +208,32 @@ def _families(rng):
     import cirq
 
     out = []
+    # values that carry a HISTORY: equal to a freshly built value, but their private workspace / caches have been used
+    def _used_tableaux():
+        ts = []
+        t = cirq.CliffordTableau(2)
+        t._measure(0, np.random.RandomState(0))                      # deterministic outcome: the scratch row has been written
+        ts.append(t)
+        t2 = cirq.CliffordTableau(2)
+        t2.apply_h(0); t2.apply_cx(0, 1)
+        t2._measure(0, np.random.RandomState(1)); t2._measure(1, np.random.RandomState(1))   # random, then deterministic
+        ts.append(t2)
+        st = cirq.CliffordTableauSimulationState(cirq.CliffordTableau(3), qubits=cirq.LineQubit.range(3), prng=np.random.RandomState(2))
+        for op in [cirq.X(cirq.LineQubit(1)), cirq.H(cirq.LineQubit(0)), cirq.measure(cirq.LineQubit(1), key="a"), cirq.CNOT(cirq.LineQubit(1), cirq.LineQubit(2)), cirq.measure(cirq.LineQubit(2), key="b")]:
+            cirq.act_on(op, st)
+        ts.append(st.tableau)
+        hash(ts[0])  # and one whose hash has been computed before it is written
+        return ts
+    out.append(("Clifford tableaux after measurements (used workspace)", _used_tableaux()))
+    ch = cirq.StabilizerStateChForm(num_qubits=2)
+    ch.apply_h(0); ch.apply_cx(0, 1); ch.measure([0], seed=1)
+    out.append(("CH form after a measurement", ch))
+    c_used = cirq.Circuit(cirq.H(cirq.LineQubit(0)), cirq.measure(cirq.LineQubit(0), key="m"))
+    c_used.all_qubits(); c_used.all_measurement_key_objs(); cirq.is_parameterized(c_used); c_used.freeze()
+    out.append(("a circuit whose cached queries have been evaluated", c_used))
+    fz_used = cirq.FrozenCircuit(cirq.X(cirq.LineQubit(0)) ** sympy.Symbol("a"))
+    hash(fz_used); fz_used.all_qubits(); cirq.parameter_names(fz_used)
+    out.append(("a frozen circuit whose hash and queries have been evaluated", fz_used))
     for qa, qb in ((cirq.LineQubit(-1), cirq.LineQubit(-2)), (cirq.GridQubit(-1, 0), cirq.GridQubit(-2, 0)), (cirq.GridQubit(0, -1), cirq.GridQubit(0, -2)),
                    (cirq.LineQid(-1, dimension=3), cirq.LineQid(-2, dimension=3)), (cirq.NamedQubit("a"), cirq.NamedQubit("b"))):
         g = cirq.X if qa.dimension == 2 else cirq.XPowGate(dimension=3)
